@@ -39,7 +39,7 @@ COMPLEX_VALUES = {'a': 1.3 + 0.4j, 'b': 0.7 - 1.1j, 'c': 0.6 + 0.9j, 'd': -1.9 +
 def gates(tier):
     return {'flat_sequences': 5000, 'flat_discriminating': 3000, 'random_derivations': 2000,
             'renderings_checked': 10000, 'invalid_strings': 2000, 'array_derivations': 300,
-            'complex_binding_cases': 1000, 'metric_suffix_cases': 100, 'grader_layer_calls': 300}
+            'complex_binding_cases': 1000, 'metric_suffix_cases': 100, 'literal_checks': 2500, 'tiny_literals': 300, 'grader_layer_calls': 300}
 
 
 def lib_scope(bindings, metric):
@@ -416,7 +416,40 @@ def run_graders(ctx):
                 ctx.violation('C03:grader:verdict', 'expected ok=%s, got %r' % (want, out.value), wit)
 
 
+def run_literals(ctx):
+    """Number literals on their own: mantissa forms x exponents x every suffix, judged relative to their OWN magnitude."""
+    from mitxgraders.helpers.calc import evaluator, METRIC_SUFFIXES
+    rng = ctx.rng
+    sufs = dict(METRIC_SUFFIXES)
+    sufs['%'] = 0.01
+    idx = 0
+    for k in range(ctx.n(3200, 60000)):
+        digits = rng.randint(1, 12)
+        mant = '%d.%s' % (rng.randint(0, 99), ''.join(rng.choice('0123456789') for _ in range(digits))) if rng.random() < 0.8 else str(rng.randint(1, 99999))
+        if rng.random() < 0.2:
+            mant = mant.lstrip('0') if mant.startswith('0.') else mant       # '.123'
+        exp = rng.choice(['', '', 'e-3', 'e-7', 'E-12', 'e5', 'e+9', 'e-20', 'e15'])
+        suf = rng.choice(list(sufs) + ['', ''])
+        text = mant + exp + suf
+        try:
+            want = float(mant + exp) * (sufs[suf] if suf else 1.0)
+        except ValueError:
+            continue
+        out = lib.call(ctx, lambda: evaluator(text, {}, {}, sufs)[0])
+        ctx.ev()
+        ctx.count('literal_checks')
+        wit = {'literal': text, 'expected': want, 'outcome': out.brief()}
+        if want != 0 and abs(want) < 1e-9:
+            ctx.count('tiny_literals')
+            ctx.nontrivial('lit:' + text)
+        if not out.returned:
+            ctx.violation('C03:literal:error_for_valid', 'literal %r raised %r' % (text, out.exc), wit)
+        elif abs(out.value - want) > 1e-12 * abs(want):
+            ctx.violation('C03:literal:value' + (':suffix' if suf else ''), 'literal %r evaluates to %r, its value is %r' % (text, out.value, want), wit)
+
+
 def run(ctx):
+    run_literals(ctx)
     run_flat(ctx)
     run_random(ctx)
     if ctx.inconclusive:
